@@ -107,6 +107,10 @@ pub enum Op {
     Arm(Fault),
     /// one-shot answer for the next `leader_state` call
     Leader(LeaderAns),
+    /// the reserved-peers stream reports 0 connected peers (below `min_connected_reserved_peers`)
+    PeersDrop,
+    /// the reserved-peers stream reports `min_connected_reserved_peers` connected peers
+    PeersReturn,
 }
 
 // ---------------------------------------------------------------------------
@@ -192,6 +196,12 @@ struct EnvState {
     new_tx_since_probe: bool,
     /// bumped by every port call and every hook
     activity: u64,
+    /// reserved-peers stream (configurations with `min_connected_reserved_peers` > 0)
+    peers_tx: futures::channel::mpsc::UnboundedSender<usize>,
+    peers_rx: Option<futures::channel::mpsc::UnboundedReceiver<usize>>,
+    peers: usize,
+    /// highest block ever announced on the importer's block stream (height, timestamp)
+    announced: (u32, u64),
     /// set when a drive did not reach quiescence (busy loop without time passing)
     spinning: bool,
 }
@@ -318,6 +328,10 @@ fn announce(e: &mut EnvState, sealed: SealedBlock, local: bool) {
     } else {
         BlockImportInfo::new_from_network(sealed.entity.header().clone())
     };
+    let (h, t) = (u32::from(*info.block_header.height()), info.block_header.time().0);
+    if h > e.announced.0 {
+        e.announced = (h, t);
+    }
     let _ = e.block_tx.unbounded_send(info);
 }
 
@@ -414,7 +428,8 @@ impl BlockImporter for Port {
 
 impl P2pPort for Port {
     fn reserved_peers_count(&self) -> BoxStream<usize> {
-        Box::pin(futures::stream::pending())
+        let rx = self.0.lock().unwrap().peers_rx.take().expect("reserved_peers_count is subscribed once");
+        Box::pin(rx)
     }
 }
 
@@ -489,6 +504,9 @@ struct Oracle {
     last_attempt: Option<(u32, bool)>,
     /// a producer request whose outcome is still open
     open_attempt: Option<u32>,
+    /// highest block announced on the block stream before the current letter started, i.e. that
+    /// the sync task has certainly processed (the runtime was quiescent since)
+    announced_settled: (u32, u64),
 }
 
 pub struct World {
@@ -604,6 +622,9 @@ pub struct Poa {
     pub trigger: Trigger,
     pub canon: CanonMode,
     pub thorough: bool,
+    /// `min_connected_reserved_peers`; with > 0 the alphabet has PeersDrop / PeersReturn and the
+    /// world starts after a fixed prologue (peers connected, time_until_synced elapsed: Synced)
+    pub min_peers: usize,
     pub notes: Mutex<BTreeMap<String, (u64, String)>>,
 }
 
@@ -638,10 +659,12 @@ impl Subject for Poa {
     fn fresh(&self) -> World {
         let rt = tokio::runtime::Builder::new_current_thread().enable_time().start_paused(true).build().expect("runtime");
         let trigger = self.trigger;
+        let min_peers = self.min_peers;
         let (env, svc) = rt.block_on(async move {
             let t0 = Instant::now();
             let (block_tx, block_rx) = futures::channel::mpsc::unbounded();
             let (new_txs, _) = tokio::sync::watch::channel(());
+            let (peers_tx, peers_rx) = futures::channel::mpsc::unbounded();
             let last_time = BASE_TAI - 3;
             let env: Env = Arc::new(Mutex::new(EnvState {
                 t0,
@@ -658,6 +681,10 @@ impl Subject for Poa {
                 new_tx_since_probe: false,
                 activity: 0,
                 spinning: false,
+                peers_tx,
+                peers_rx: Some(peers_rx),
+                peers: 0,
+                announced: (START_HEIGHT, last_time),
             }));
             install_sink(&env);
             // the sync task's interval timer is created inside `new_service`
@@ -667,7 +694,7 @@ impl Subject for Poa {
                 trigger,
                 signer: SignMode::Unavailable,
                 metrics: false,
-                min_connected_reserved_peers: 0,
+                min_connected_reserved_peers: min_peers,
                 time_until_synced: Duration::from_secs(SYNC_TIME),
                 production_timeout: Duration::from_secs(PRODUCTION_TIMEOUT),
                 chain_id: Default::default(),
@@ -688,6 +715,20 @@ impl Subject for Poa {
             );
             svc.start_and_await().await.expect("service starts");
             idle(&env).await;
+            if min_peers > 0 {
+                // prologue: the reserved peers connect and `time_until_synced` elapses
+                {
+                    let mut e = env.lock().unwrap();
+                    e.peers = min_peers;
+                    let _ = e.peers_tx.unbounded_send(min_peers);
+                }
+                idle(&env).await;
+                tokio::time::sleep_until(t0 + Duration::from_secs(SYNC_TIME)).await;
+                idle(&env).await;
+                if env.lock().unwrap().sync.variant != "Synced" {
+                    machinery_failure("C24 harness: the peers prologue did not end in the Synced state");
+                }
+            }
             (env, svc)
         });
         verif_hooks::set_sink(None);
@@ -697,7 +738,7 @@ impl Subject for Poa {
             shared,
             manual: vec![],
             manual_seq: 0,
-            oracle: Oracle { k_h: START_HEIGHT, k_t: BASE_TAI - 3, last_own_commit: None, last_attempt: None, open_attempt: None },
+            oracle: Oracle { k_h: START_HEIGHT, k_t: BASE_TAI - 3, last_own_commit: None, last_attempt: None, open_attempt: None, announced_settled: (START_HEIGHT, BASE_TAI - 3) },
             judged: 0,
             dead: false,
             history: vec![],
@@ -740,6 +781,9 @@ impl Subject for Poa {
         v.push(Op::NetBlock { ahead: false });
         v.push(Op::NetBlock { ahead: true });
         let e = w.env.lock().unwrap();
+        if self.min_peers > 0 {
+            v.push(if e.peers >= self.min_peers { Op::PeersDrop } else { Op::PeersReturn });
+        }
         let never = matches!(self.trigger, Trigger::Never);
         // leader-state / database answers are only ever read on the trigger path
         if !never {
@@ -786,6 +830,8 @@ impl Subject for Poa {
             }),
             Op::Manual { .. } => "Manual".into(),
             Op::NetBlock { .. } => "NetBlock".into(),
+            Op::PeersDrop => "PeersDrop".into(),
+            Op::PeersReturn => "PeersReturn".into(),
             other => format!("{other:?}"),
         }
     }
@@ -794,6 +840,10 @@ impl Subject for Poa {
         let mut v = vec!["Advance".to_string(), "Manual".into(), "NetBlock".into(), "Arm:CommitErr".into(), "Arm:ProducerErr".into(), "Arm:SignerErr".into()];
         if matches!(self.trigger, Trigger::Instant) {
             v.push("NewTx".into());
+        }
+        if self.min_peers > 0 {
+            v.push("PeersDrop".into());
+            v.push("PeersReturn".into());
         }
         v
     }
@@ -813,6 +863,7 @@ impl Subject for Poa {
         };
         install_sink(&w.env);
         let env = w.env.clone();
+        w.oracle.announced_settled = env.lock().unwrap().announced;
         match op {
             Op::Arm(f) => {
                 let mut e = env.lock().unwrap();
@@ -826,6 +877,17 @@ impl Subject for Poa {
                 }
             }
             Op::Leader(l) => env.lock().unwrap().arms.leader = Some(*l),
+            Op::PeersDrop | Op::PeersReturn => {
+                let n = if matches!(op, Op::PeersDrop) { 0 } else { self.min_peers };
+                w.rt.block_on(async {
+                    {
+                        let mut e = env.lock().unwrap();
+                        e.peers = n;
+                        let _ = e.peers_tx.unbounded_send(n);
+                    }
+                    idle(&env).await;
+                });
+            }
             Op::Advance => {
                 let before = w.events_len();
                 let manual = &w.manual;
@@ -976,7 +1038,8 @@ impl Poa {
         let next_tick = s.timer_base.map(|b| b + Duration::from_secs(SYNC_TIME));
         // In `Synced` with sufficient peers the timer phase cannot influence the future: ticks are
         // no-ops there and the only way out (a network block) restarts the timer (sync.rs).
-        let tick = if s.variant == "Synced" && s.has_sufficient_peers { "n/a".to_string() } else { rel_i(next_tick) };
+        // `InsufficientPeers` is only left through a peer-count event, which restarts the timer too.
+        let tick = if (s.variant == "Synced" && s.has_sufficient_peers) || s.variant == "InsufficientPeers" { "n/a".to_string() } else { rel_i(next_tick) };
         let sync = format!("sync[{} h{} t{} p{} tick{}]", s.variant, rel_h(s.height), rel_t(s.time), s.has_sufficient_peers, tick);
         let a = &e.arms;
         let arms = format!("arms[{:?} {} {} {} {:?} {:?} {}]", a.producer, a.signer_err, a.commit_err, a.exec_err, a.db, a.leader, a.leader_err);
@@ -1002,7 +1065,7 @@ impl Poa {
             o.open_attempt.map(rel_h),
         );
         let manual: Vec<String> = w.manual.iter().map(|(_, s, n, _)| format!("{:?}x{n}", s.map(rel_t))).collect();
-        format!("{main} {sync} {arms} {oracle} manual{manual:?} ss{sub_second}")
+        format!("{main} {sync} {arms} {oracle} manual{manual:?} ss{sub_second} peers{} ann({},{})", e.peers, rel_h(e.announced.0), rel_t(e.announced.1))
     }
 
     /// The oracle: the statement of C24 over the recorded port calls.
@@ -1019,6 +1082,15 @@ impl Poa {
                     if *h > o.k_h {
                         o.k_h = *h;
                         o.k_t = *t;
+                    }
+                    // Being told "synced" by its own sync task means knowing every block that was
+                    // announced to that task on the importer's block stream and processed by it
+                    // (everything announced before this letter; the runtime was quiescent since).
+                    let (ah, at) = o.announced_settled;
+                    if ah > o.k_h {
+                        o.k_h = ah;
+                        o.k_t = at;
+                        notes.push("a Synced(header) delivery carried a header older than a block already announced to and processed by the sync task");
                     }
                 }
                 Ev::DbHeight { ans: Some(d), .. } => {
@@ -1155,6 +1227,8 @@ pub fn run(cli: &Cli) {
     let triggers: Vec<(&str, Trigger)> = vec![
         ("Open10s", Trigger::Open { period: Duration::from_secs(BLOCK_TIME) }),
         ("Never", Trigger::Never),
+        ("Never+peers", Trigger::Never),
+        ("Instant+peers", Trigger::Instant),
         ("Interval10s", Trigger::Interval { block_time: Duration::from_secs(BLOCK_TIME) }),
         ("Instant", Trigger::Instant),
     ];
@@ -1162,10 +1236,20 @@ pub fn run(cli: &Cli) {
     let depth_of = |name: &str| -> (usize, usize) {
         match name {
             "Open10s" => (6, 9),
+            // peers configurations start after the Synced prologue
+            "Never+peers" => (6, 7),
+            "Instant+peers" => (5, 6),
             _ => (6, 7),
         }
     };
-    let mk = |name: &str, trigger: Trigger, canon: CanonMode| Poa { name: format!("poa[{name},{canon:?}]"), trigger, canon, thorough, notes: Mutex::new(BTreeMap::new()) };
+    let mk = |name: &str, trigger: Trigger, canon: CanonMode| Poa {
+        name: format!("poa[{name},{canon:?}]"),
+        trigger,
+        canon,
+        thorough,
+        min_peers: if name.ends_with("+peers") { 1 } else { 0 },
+        notes: Mutex::new(BTreeMap::new()),
+    };
     if let Some(path) = &cli.replay {
         let rf = load_replay(path);
         for (n, t) in &triggers {
@@ -1200,7 +1284,7 @@ pub fn run(cli: &Cli) {
         return;
     }
     if std::env::var("VH_POA_BENCH").is_ok() {
-        let s = mk("Interval10s", triggers[2].1, CanonMode::State);
+        let s = mk("Interval10s", Trigger::Interval { block_time: Duration::from_secs(BLOCK_TIME) }, CanonMode::State);
         let t = std::time::Instant::now();
         for _ in 0..200 {
             let w = s.fresh();
